@@ -66,6 +66,7 @@ def generate(rng, tier):
             sup = ["tl", [[a, a + rng.choice([3, 9, 40]) * u_] for a in sorted(rng.sample(range(0, hi, u_), 25))]]
             cases.append({"regime": regime, "t": big, "other": gen.big_timeline(rng, regime, 60), "sup": sup})
     cases += gen.decimal_copies(rng, cases, (1500 if tier == "thorough" else 150), lambda c: len(c.get('t', [])) < 50)
+    cases += gen.p3_copies(rng, cases, ['t', 'other', 'sup', 'a', 'b'], (1000 if tier == "thorough" else 120), lambda c: len(c.get('t', [])) < 50)
     cases += gen.far_copies(rng, cases, ['t', 'other', 'sup', 'a', 'b'], (400 if tier == "thorough" else 60))
     return {"cases": cases, "meta": {"exhaustive": True, "small_scope_cases": nex,
                                      "sizes": gen.stats(cases, {"n_t": lambda c: len(c.get("t", c.get("a", []))),
